@@ -84,6 +84,12 @@ pub enum Op {
     Compose(GSpec, bool),
     Elim,
     Reduce,
+    /// tree (+,-,*) tree; operand is a tree over the same input space
+    Arith(char, TSpec),
+    Neg,
+    /// tree (+,-) affine function, `true` = affine operand on the left
+    ArithAff(char, Aff, bool),
+    RemoveAxes(Vec<bool>),
 }
 
 impl Op {
@@ -93,13 +99,34 @@ impl Op {
             Op::Compose(g, p) => json!({"compose": g.to_json(), "prune": p}),
             Op::Elim => json!("infeasible_elimination"),
             Op::Reduce => json!("reduce"),
+            Op::Arith(c, t) => json!({"arith": c.to_string(), "operand_tree": t.to_json()}),
+            Op::Neg => json!("neg"),
+            Op::ArithAff(c, a, left) => json!({"arith": c.to_string(), "operand_aff": a.to_json(), "aff_on_left": left}),
+            Op::RemoveAxes(m) => json!({"remove_axes_keep": m}),
         }
     }
     pub fn fits(&self, d: usize) -> bool {
         match self {
             Op::Apply(a) => a.indim == d,
             Op::Compose(g, _) => g.fits(d),
+            Op::Arith(_, t) => t.out_dim() == Some(d),
+            Op::ArithAff(_, a, _) => a.outdim() == d,
             _ => true,
+        }
+    }
+    /// additionally requires the tree's input dimension
+    pub fn fits_in(&self, in_dim: usize) -> bool {
+        match self {
+            Op::Arith(_, t) => t.aff().indim == in_dim,
+            Op::ArithAff(_, a, _) => a.indim == in_dim,
+            Op::RemoveAxes(m) => m.len() == in_dim,
+            _ => true,
+        }
+    }
+    pub fn in_dim_after(&self, in_dim: usize) -> usize {
+        match self {
+            Op::RemoveAxes(m) => m.iter().filter(|x| **x).count(),
+            _ => in_dim,
         }
     }
     pub fn out_dim(&self, d: usize) -> usize {
@@ -125,6 +152,37 @@ impl Op {
                 t.infeasible_elimination();
             }
             Op::Reduce => t.reduce(),
+            Op::Arith(c, o) => {
+                let b = o.build::<2>();
+                let a = std::mem::replace(t, AffTree::<2>::new(1));
+                *t = match c {
+                    '+' => a + &b,
+                    '-' => a - &b,
+                    '*' => a * &b,
+                    _ => a / &b,
+                };
+            }
+            Op::Neg => {
+                let a = std::mem::replace(t, AffTree::<2>::new(1));
+                *t = -a;
+            }
+            Op::ArithAff(c, f, left) => {
+                let a = std::mem::replace(t, AffTree::<2>::new(1));
+                let f = f.to_real();
+                *t = match (c, left) {
+                    ('+', false) => a + &f,
+                    ('-', false) => a - &f,
+                    ('+', true) => &f + a,
+                    ('-', true) => &f - a,
+                    ('*', false) => a * &f,
+                    ('*', true) => &f * a,
+                    (_, false) => a / &f,
+                    (_, true) => &f / a,
+                };
+            }
+            Op::RemoveAxes(m) => {
+                t.remove_axes(&Array1::from(m.clone())).unwrap();
+            }
         })
     }
     /// the same step without pruning (reference track)
@@ -133,6 +191,20 @@ impl Op {
             Op::Apply(a) => Some(Op::Apply(a.clone())),
             Op::Compose(g, _) => Some(Op::Compose(g.clone(), false)),
             Op::Elim | Op::Reduce => None,
+            o => Some(o.clone()),
+        }
+    }
+    pub fn name(&self) -> &'static str {
+        match self {
+            Op::Apply(_) => "apply_func",
+            Op::Compose(_, true) => "compose_pruned",
+            Op::Compose(_, false) => "compose",
+            Op::Elim => "infeasible_elimination",
+            Op::Reduce => "reduce",
+            Op::Arith(..) => "tree_arithmetic",
+            Op::Neg => "neg",
+            Op::ArithAff(..) => "affine_arithmetic",
+            Op::RemoveAxes(_) => "remove_axes",
         }
     }
     pub fn prunes(&self) -> bool {
